@@ -328,3 +328,50 @@ func propC14(w *World, r *Report, tier string) {
 	r.Extra["entry_points"] = len(entries)
 	r.Extra["reachable_functions"] = len(sa.Funcs)
 }
+
+// ---------------------------------------------------------------------------------------------
+// totality runs shared by C15, C16, C18
+
+func totalityEntries(w *World, r *Report, specs [][3]string) []entrySpec {
+	var entries []entrySpec
+	for _, s := range specs {
+		rel, name, kinds := s[0], s[1], strings.Split(s[2], ",")
+		f := w.LookupFunc(rel, name)
+		if f == nil {
+			r.Fail("anchor", rel+"."+name, "missing", token.NoPos, "entry point "+rel+"."+name+" not found", nil)
+			continue
+		}
+		entries = append(entries, entrySpec{Fn: f, Name: FuncName(f), Args: func(sa *Safe, fr *frame, st *State, fn *ssa.Function) []AVal {
+			var args []AVal
+			for i, p := range fn.Params {
+				k := "any"
+				if i < len(kinds) && kinds[i] != "" {
+					k = kinds[i]
+				}
+				switch k {
+				case "recv":
+					args = append(args, nonNilPtrArg(sa, fr, st, p.Type(), p.Name()))
+				default:
+					args = append(args, anyArg(sa, fr, st, p.Type(), p.Name()))
+				}
+			}
+			return args
+		}})
+	}
+	return entries
+}
+
+func init() {
+	register("X15", func(w *World, r *Report, tier string) {
+		sa := runEntries(w, r, totalityEntries(w, r, [][3]string{{"nasType", "QoSRules.UnmarshalBinary", "recv"}, {"nasType", "QoSFlowDescs.UnmarshalBinary", "recv"}}))
+		sa.report(r, "X15")
+	})
+	register("X18", func(w *World, r *Report, tier string) {
+		sa := runEntries(w, r, totalityEntries(w, r, [][3]string{{"uePolicyContainer", "UePolDeliverySerDecode", ""}, {"uePolicyContainer", "UEPolicySectionManagementList.UnmarshalBinary", "recv"}, {"uePolicyContainer", "UEPolicySectionManagementResult.UnmarshalBinary", "recv"}}))
+		sa.report(r, "X18")
+	})
+	register("X16", func(w *World, r *Report, tier string) {
+		sa := runEntries(w, r, totalityEntries(w, r, [][3]string{{"nasConvert", "ProtocolConfigurationOptions.UnMarshal", "recv"}, {"nasConvert", "PSIToBooleanArray", ""}, {"nasConvert", "PSIToBuf", ""}, {"nasConvert", "PDUSessionReactivationResultErrorCauseToBuf", ""}}))
+		sa.report(r, "X16")
+	})
+}
